@@ -604,6 +604,14 @@ impl Exec {
             }
             return Ok(Flow::Go);
         }
+        // two boards that show different positions must not compare equal (and if they do, Hash must still agree with ==)
+        if self.on(8) && ba == bb {
+            return Err(viol(
+                "C08",
+                if std_hash(&ba) != std_hash(&bb) || ba.get_hash() != bb.get_hash() { "std_hash/eq_true_but_hash_differs" } else { "eq/different_positions_compare_equal" },
+                format!("{:?} and {:?} are different positions but compare ==", a, b),
+            ));
+        }
         let mut diffs: Vec<&'static str> = vec![];
         let nsq = (0..64).filter(|i| oa.sq[*i] != ob.sq[*i]).count();
         if nsq > 0 {
